@@ -25,6 +25,7 @@ RULE = (
     "whole context, cancellation arriving while the context is already shutting down, a 2..100 ms timeout around the context that fires while it is being entered) x (context entered as StdioClient, through stdio_client() or through the StdioTransport wrapper) x (moment: before the first message, request in flight, after a response); the product is enumerated (quick: every (behaviour, exit path) pair with rotating moments; thorough: full product x 3 jitters); "
     "measured by the harness: context exit duration <= 2 x 1 s grace + 3 s slack, no /proc entry (running or zombie) for the child at the very moment the context has been left and again after a <=1 s settle, open-fd count equal to the count before entry, a request "
     "pending when the child dies ends in an exception, an unstartable command makes entering raise; non-trivial = behaviour other than well-behaved or exit path other than normal; distinct = distinct cell"
+    "; round 8: 6 more unstartable commands (missing paths named like scripts: .py .pyw .js .sh .exe, dangling .py link)"
     "; added in rounds 6-7 of the seeded changes: 10 unstartable commands (one per errno) + scripted sweep of 19 spawn failures; server LOG_LEVEL env x stderr-flooding children; session inside an outer deadline; logging at DEBUG"
 )
 ASSUMPTIONS = [
@@ -124,7 +125,9 @@ if beh.startswith("ignore_sigterm"):
 
 BEHAVIOURS = ["well_behaved", "exit_at_0", "exit_at_1", "exit_at_2", "exit_at_3", "ignore_sigterm", "never_reads", "flood", "close_stdout", "close_stdin", "slow_start",
               "ignore_sigterm+flood", "ignore_sigterm+never_reads", "flood_requests"]
-SPAWN_FAIL = ["missing_path", "directory", "not_executable", "exec_format", "empty_executable", "path_through_file", "symlink_loop", "name_too_long", "dangling_symlink", "bad_interpreter"]
+SPAWN_FAIL = ["missing_path", "directory", "not_executable", "exec_format", "empty_executable", "path_through_file", "symlink_loop", "name_too_long", "dangling_symlink", "bad_interpreter",
+              # commands that do not exist and are named like scripts (what a config says when the server was never installed)
+              "missing_py", "missing_pyw", "missing_js", "missing_sh", "missing_exe", "dangling_py"]
 EXITS = ["normal", "exception", "cancel", "move_on_after", "cancel_during_exit", "timeout_during_enter"]
 ENTRIES = ["client", "function", "transport"]  # StdioClient, stdio_client(), StdioTransport
 ENTER_DEADLINES = [0.002, 0.01, 0.03, 0.06, 0.1]  # a timeout around the context that fires while (or just after) the child is being started
@@ -161,6 +164,7 @@ def scratch() -> str:
         os.symlink("loop_b", os.path.join(_SCRATCH, "loop_a"))  # ELOOP
         os.symlink("loop_a", os.path.join(_SCRATCH, "loop_b"))
         os.symlink("nowhere", os.path.join(_SCRATCH, "dangling"))  # ENOENT
+        os.symlink("nowhere.py", os.path.join(_SCRATCH, "dangling.py"))  # ENOENT
     return _SCRATCH
 
 
@@ -215,7 +219,9 @@ def run_cell(case: Dict[str, Any]) -> Dict[str, Any]:
         cmd = {"missing_path": os.path.join(d, "no-such-binary"), "directory": os.path.join(d, "adir"), "not_executable": os.path.join(d, "notexec.txt"),
                "exec_format": os.path.join(d, "garbage.bin"), "empty_executable": os.path.join(d, "empty.bin"), "path_through_file": os.path.join(d, "child.py", "server"),  # ENOTDIR
                "symlink_loop": os.path.join(d, "loop_a"), "name_too_long": os.path.join(d, "n" * 300), "dangling_symlink": os.path.join(d, "dangling"),
-               "bad_interpreter": os.path.join(d, "badinterp.sh")}[beh]
+               "bad_interpreter": os.path.join(d, "badinterp.sh"),
+               "missing_py": os.path.join(d, "no-such-server.py"), "missing_pyw": os.path.join(d, "no-such-server.pyw"), "missing_js": os.path.join(d, "no-such-server.js"),
+               "missing_sh": os.path.join(d, "no-such-server.sh"), "missing_exe": os.path.join(d, "no-such-server.exe"), "dangling_py": os.path.join(d, "dangling.py")}[beh]
         params = StdioParameters(command=cmd, args=[marker])
     else:
         params = StdioParameters(command=sys.executable, args=[os.path.join(d, "child.py"), beh, marker], env=case.get("env"))
